@@ -616,6 +616,87 @@ pub fn sweep_encdeep(run: &mut Run, prop: &'static str) {
     });
 }
 
+/// ENC-THRASH and encoder run-lengths: destination A used k times, then N
+/// distinct destinations, then A / the first of them / a fresh one (k in 1..=3,
+/// N in 0..=20, 5 call kinds); and stores/assignments repeated 1, 2, 255, 256,
+/// 257 times (two runs) before each of six encoder calls.
+pub fn sweep_enc_thrash(run: &mut Run, prop: &'static str) {
+    let cfg = encseq_cfg();
+    let kinds: Vec<EncCall> = encdeep_alphabet()
+        .into_iter()
+        .filter_map(|e| match e {
+            Event::Encode { call, dst: 0x10 } => Some(call),
+            _ => None,
+        })
+        .collect();
+    let nk = kinds.len() as u64;
+    run.sweep("ENC-THRASH: destination A x k, N distinct destinations, then A / the first of them / a fresh one (k in 1..=3, N in 0..=20, 5 call kinds, same or rotating kinds)", nk * 3 * 21 * 3 * 2, |acc, i| {
+        let mut ix = Ix(i);
+        let rot = ix.take(2) == 1;
+        let revisit = ix.take(3);
+        let n = ix.take(21) as u8;
+        let k = ix.take(3) + 1;
+        let call = &kinds[ix.take(nk) as usize];
+        let a = 0x40u8;
+        let mut history: Vec<Event> = (0..k).map(|_| Event::Encode { call: call.clone(), dst: a }).collect();
+        for j in 0..n {
+            let c = if rot { kinds[j as usize % kinds.len()].clone() } else { call.clone() };
+            history.push(Event::Encode { call: c, dst: 0x41 + j });
+        }
+        let dst = [a, 0x41, 0x7B][revisit as usize];
+        acc.evals += 1;
+        let j = judge_encseq(prop, &cfg, &history, call, dst, false, false);
+        acc.trans += history.len() as u64 + 1;
+        acc.validated += 1;
+        acc.state(Fnv::default().u64(0x7A6).u64(i).finish());
+        if j.produced && n >= 2 {
+            acc.nontrivial(Fnv::default().u64(0x7A7).u64(i).finish());
+        }
+        for (kind, d) in j.viols {
+            acc.violation(history.len() as u64, kind, format!("after {} earlier encoder call(s): {}", history.len(), d), || json!({"prop": prop, "check": "encseq", "cfg": cfg, "history": history, "call": call, "dst": dst, "reuse": false}));
+        }
+    });
+    let evs: Vec<Event> = vec![
+        Event::SetEidResp(0xA8),
+        Event::SetEidResp(0x17),
+        Event::SetEidReq(0xA8),
+        Event::Process(set_eid_req(0x10, SEQ_OWN, 0, 0xA8)),
+        Event::Encode { call: EncCall::RespGetEid { cc: 0, ty: 0, idty: 0, fair: false }, dst: 0x34 },
+        Event::Encode { call: EncCall::ReqGetEid, dst: 0x34 },
+    ];
+    let reps = [1usize, 2, 255, 256, 257];
+    let lasts: Vec<EncCall> = vec![
+        EncCall::RespGetEid { cc: 0, ty: 0, idty: 0, fair: false },
+        EncCall::RespSetEid { cc: 0, assign: 0, alloc: 0 },
+        EncCall::ReqGetEid,
+        EncCall::ReqSetEid { op: 0, eid: 0xA8 },
+        EncCall::Vendor { fmt: 0, data: 0x1AF4, num: 1, msg: vec![0x51; 4] },
+        EncCall::RespVersion { cc: 0 },
+    ];
+    let ns = (evs.len() * reps.len()) as u64;
+    let nl = lasts.len() as u64;
+    run.sweep("encoder run-lengths: two runs over 6 events x repeat counts {1,2,255,256,257}, then each of 6 encoder calls", ns * ns * nl, |acc, i| {
+        let call = &lasts[(i % nl) as usize];
+        let r = i / nl;
+        let mut history = vec![];
+        for s in [r / ns, r % ns] {
+            for _ in 0..reps[(s % reps.len() as u64) as usize] {
+                history.push(evs[(s / reps.len() as u64) as usize].clone());
+            }
+        }
+        acc.evals += 1;
+        let j = judge_encseq(prop, &cfg, &history, call, 0x34, false, false);
+        acc.trans += history.len() as u64 + 1;
+        acc.validated += 1;
+        if j.produced {
+            acc.nontrivial(Fnv::default().u64(0x7A8).u64(i).finish());
+        }
+        for (kind, d) in j.viols {
+            acc.violation(history.len() as u64, kind, format!("after {} earlier call(s)/store(s): {}", history.len(), d), || json!({"prop": prop, "check": "encseq", "cfg": cfg, "history": history, "call": call, "dst": 0x34, "reuse": false}));
+        }
+    });
+}
+
 /// The buffer already holds this very packet with one byte damaged (every byte
 /// in turn): an encoder that recognises "already there" must still repair it.
 pub fn sweep_damaged_prefill(run: &mut Run, prop: &'static str) {
@@ -798,6 +879,7 @@ pub fn run_c03(run: &mut Run) {
     sweep_encseq(run, "C03");
     enc_pairs(run, "C03");
     sweep_encdeep(run, "C03");
+    sweep_enc_thrash(run, "C03");
     sweep_damaged_prefill(run, "C03");
 }
 
@@ -890,6 +972,7 @@ pub fn run_c04(run: &mut Run) {
     sweep_encseq(run, "C04");
     enc_pairs(run, "C04");
     sweep_encdeep(run, "C04");
+    sweep_enc_thrash(run, "C04");
 }
 
 pub fn run_c05(run: &mut Run) {
@@ -908,6 +991,7 @@ pub fn run_c05(run: &mut Run) {
     sweep_encseq(run, "C05");
     enc_pairs(run, "C05");
     sweep_encdeep(run, "C05");
+    sweep_enc_thrash(run, "C05");
 }
 
 pub fn run_c06(run: &mut Run) {
@@ -927,6 +1011,7 @@ pub fn run_c06(run: &mut Run) {
     sweep_encseq(run, "C06");
     enc_pairs(run, "C06");
     sweep_encdeep(run, "C06");
+    sweep_enc_thrash(run, "C06");
 }
 
 /// C07 adds the stored-EID dimension through context histories.
@@ -989,6 +1074,7 @@ pub fn run_c07(run: &mut Run) {
     sweep_encseq(run, "C07");
     enc_pairs(run, "C07");
     sweep_encdeep(run, "C07");
+    sweep_enc_thrash(run, "C07");
 }
 
 pub fn run_c08(run: &mut Run) {
@@ -1027,6 +1113,7 @@ pub fn run_c08(run: &mut Run) {
     }
     sweep_encseq(run, "C08");
     sweep_encdeep(run, "C08");
+    sweep_enc_thrash(run, "C08");
 }
 
 pub fn run_c16(run: &mut Run) {
@@ -1044,6 +1131,7 @@ pub fn run_c16(run: &mut Run) {
     sweep_encseq(run, "C16");
     enc_pairs(run, "C16");
     sweep_encdeep(run, "C16");
+    sweep_enc_thrash(run, "C16");
     sweep_damaged_prefill(run, "C16");
 }
 
